@@ -16,7 +16,7 @@ def reply_frames(rng, flags, target):
     """A conforming server's replies for the chain, as frames with labels."""
     out = []
     for i, f in enumerate(flags):
-        if f == "oneway":
+        if f in ("oneway", "both"):
             continue
         if f == "more":
             for _ in range(rng.choice([0, 0, 1, 2, 3])):
@@ -58,7 +58,10 @@ def gen_cases(ck, limit, step):
         for flags in itertools.product(["plain", "oneway", "more"], repeat=n):
             if not quick and n == 6 and rng.random() < 0.6:
                 continue
-            for _ in range(reps):
+            for rep in range(reps):
+                # a call flagged both oneway and more is owed nothing, like a oneway call
+                if rep % 2 == 1 and "oneway" in flags:
+                    flags = tuple("both" if f == "oneway" and rng.random() < 0.6 else f for f in flags)
                 target = rng.choice(["typed", "value"])
                 frames = reply_frames(rng, flags, target)
                 trailing = [fg.jb({"parameters": {"id": 7000 + j}}) for j in range(rng.choice([0, 0, 1, 2]))]
@@ -82,7 +85,7 @@ def gen_cases(ck, limit, step):
     # non-conforming scripts (outside the theorem: model correspondence only)
     for i in range(60 if quick else 600):
         n = rng.randrange(1, 5)
-        flags = [rng.choice(["plain", "oneway", "more"]) for _ in range(n)]
+        flags = [rng.choice(["plain", "oneway", "more", "both"]) for _ in range(n)]
         target = rng.choice(["typed", "value"])
         frames = reply_frames(rng, flags, target)
         mode = rng.choice(["short", "garbage", "service_error", "extra_cont"])
@@ -113,7 +116,7 @@ def render(c, r, codes, step, limit):
             "ch_after := %d%%nat; ch_frames := %s; ch_inhyp := %s; ch_items := %s; ch_ended := %s; "
             "ch_afterres := %s; ch_final := [%d;%d;%d] |}") % (
         step, limit, coq_list(tab), coq_list(ktab),
-        coq_list(["true" if f == "oneway" else "false" for f in c["flags"]]),
+        coq_list(["true" if f in ("oneway", "both") else "false" for f in c["flags"]]),
         fg.coq_events(c["events"]), c["after"],
         coq_list([coq_bytes(bytes.fromhex(f)) for f in c["frames"]]),
         "true" if c["inhyp"] else "false",
@@ -160,7 +163,7 @@ def main():
                          % c["flags"], {"case": c, "writes": r["writes"], "expected": r["expected_write"]},
                          tag="w%d" % c["id"])
         # a chain owing nothing must end without reading
-        if all(f == "oneway" for f in c["flags"]) and (r["items"] or not r["ended"] or r["reads_at_end"] != 0) and nviol < 3:
+        if all(f in ("oneway", "both") for f in c["flags"]) and (r["items"] or not r["ended"] or r["reads_at_end"] != 0) and nviol < 3:
             nviol += 1
             ck.violation("an all-oneway chain's stream did not end at once without touching the transport "
                          "(items %s, transport reads %d)" % ([i["res"] for i in r["items"]], r["reads_at_end"]),
@@ -193,7 +196,7 @@ def main():
     ck.cov.update({"evaluations": len(cases), "distinct_nontrivial": len(nontriv),
                    "traces_validated_against_impl": len(items), "case_classes": hist,
                    "all_flag_sequences_up_to": 4 if ck.tier == "quick" else 5,
-                   "all_oneway_chains": sum(1 for c in cases if all(f == "oneway" for f in c["flags"]))})
+                   "all_oneway_chains": sum(1 for c in cases if all(f in ("oneway", "both") for f in c["flags"]))})
     for c in cases[:2] + cases[-1:]:
         ck.samples.append({"flags": c["flags"], "frames": [bytes.fromhex(f).decode() for f in c["frames"]][:5],
                            "events": len(c["events"]), "after": c["after"]})
